@@ -48,6 +48,7 @@ type Config struct {
 
 	// Result control
 	Limit       int            `json:"limit"`
+	HasLimit    bool           `json:"hasLimit,omitempty"` // a LIMIT clause was given; with Limit == 0 no row is delivered
 	Projections []Projection   `json:"projections"`
 	OrderBy     []OrderByField `json:"orderBy"` // ORDER BY sort keys, applied per emit batch
 
